@@ -1,4 +1,5 @@
 """C12: reflection is a lossless, faithful description of the schema (Reflect.tla + Wire)."""
+import copy
 import json
 import os
 import random
@@ -115,6 +116,27 @@ def run_c12(tier, seed):
         except Exception as e:
             feats = "signal-block" if "signal " in c["text"] else "plain"
             chk.violation("reflection:raised:%s:%s" % (type(e).__name__, feats),
+                          {"mode": c["mode"], "text": c["text"], "error": "%s: %s" % (type(e).__name__, str(e)[:200])})
+            continue
+        # the description is a function of the schema: asking the same object again (generators do: one reflection per output
+        # file) gives the same record, and does not edit the records handed out before
+        try:
+            snap = copy.deepcopy(rec)
+            again = [fcp.reflection(), fcp.reflection()]
+            for n, rec_n in enumerate(again):
+                dn = first_diff(norm(snap), norm(rec_n))
+                if dn:
+                    chk.violation("reflection:repeated-call-differs:%s" % "/".join(p for p in dn[0].split("/") if p and not p.isdigit())[:60],
+                                  {"mode": c["mode"], "text": c["text"], "call": n + 2, "at": dn[0], "first_call": dn[1], "this_call": dn[2]})
+                    break
+            else:
+                dn = first_diff(norm(snap), norm(rec))
+                if dn:
+                    chk.violation("reflection:earlier-record-edited-by-later-call:%s" % "/".join(p for p in dn[0].split("/") if p and not p.isdigit())[:60],
+                                  {"mode": c["mode"], "text": c["text"], "at": dn[0], "as_returned": dn[1], "after_later_calls": dn[2]})
+            rec = snap
+        except Exception as e:
+            chk.violation("reflection:raised:%s:repeated-call" % type(e).__name__,
                           {"mode": c["mode"], "text": c["text"], "error": "%s: %s" % (type(e).__name__, str(e)[:200])})
             continue
         d = first_diff(norm(expected_record(c["reflect"])), norm(strip_meta(rec)))
